@@ -278,7 +278,14 @@ func (b bin) Iter(yield func(string, Value) bool) {
 }
 
 func (b bin) Size() int {
-	return 3
+	n := 1
+	if b.IsMin {
+		n++
+	}
+	if b.IsMax {
+		n++
+	}
+	return n
 }
 
 func (b bin) String() string {
